@@ -421,10 +421,10 @@ Example C12_roundtrip_charset_hyp :
   strip_charset (s_ "text/html; charset=latin-1") = s_ "text/html" /\ no_semi (s_ "text/html") /\ no_semi (s_ "utf-8").
 Proof. split; [reflexivity|]. split; apply Forall_forall; intros c Hc; cbn in Hc; repeat (destruct Hc as [<-|Hc]; [reflexivity|]); contradiction. Qed.
 
-(* Response.content_type = a media type (non-empty, no semicolon) reads back as itself, whatever charset default the
-   setter appends; None / del drop the header line *)
-Theorem C12_roundtrip_content_type : forall ct hl, ct <> [] -> no_semi ct ->
-  let '(hl', e) := rct_set (PStr ct) hl in e = None /\ rct_get hl' = VStr ct.
+(* Response.content_type = a media type (non-empty, no semicolon) reads back as itself, whatever the class's
+   default_charset is (any text, or none) and whether or not the setter appends it; None / del drop the header line *)
+Theorem C12_roundtrip_content_type : forall default_charset ct hl, ct <> [] -> no_semi ct ->
+  let '(hl', e) := rct_set default_charset (PStr ct) hl in e = None /\ rct_get hl' = VStr ct.
 Proof. exact rct_roundtrip. Qed.
 Print Assumptions C12_roundtrip_content_type.
 
